@@ -1,7 +1,7 @@
 (* C03: chains of changes and whole edit histories refine the plain-data model. *)
 From Coq Require Import String List ZArith NArith Bool Lia Arith.
 From YP Require Import Outcome PyStr PyVal Doc Searches Mutate Create History
-  C03spec C04spec C09create C03hist C04lists C04delete C04order C03set C09createP C09doc C03erase.
+  C03spec C04spec C09create C03hist C04lists C04delete C04plan C03set C09createP C09doc C03erase.
 Import ListNotations.
 
 Lemma psteps_app : forall l1 l2 x y z, psteps l1 x y -> psteps l2 y z -> psteps (l1 ++ l2) x z.
@@ -15,18 +15,21 @@ Section Hist.
 Variable lit : string -> outcome litres.
 Variable fl : string -> outcome flres.
 
-(* one change under its guard is the substitution of C03_set_exact, and the invariant survives *)
+(* one change under its guard is the substitution of C03_set_exact (values at the addressed position and
+   the aliases, then the alias keys), and the invariant survives *)
 Lemma apply_action_exact : forall value vo a st st',
   wf_attr (fst st) = true -> act_ok a st = true ->
   apply_action lit fl value vo a st = ROk st' ->
-  exists o r c new,
+  exists o r c ri rv,
     act_target a st = Some (o, r, c) /\
-    make_new_node lit fl (Some (node_info c)) value (a_fmt a) (snd st) vo = ROk new /\
-    st' = (subst (designated o r (node_oid c)) new (fst st), N.succ (snd st)) /\
+    make_new_node lit fl (Some (node_info c)) value (a_fmt a) (snd st) vo = ROk (NLeaf ri rv) /\
+    st' = (ksubst (kdesignated (node_oid c)) (NLeaf ri rv)
+             (subst (designated o r (node_oid c)) (NLeaf ri rv) (fst st)), N.succ (snd st)) /\
     wf_attr (fst st') = true.
 Proof.
   intros value vo a [d next] st' Hwf Hok Ha. simpl in *.
   unfold act_ok in Hok. apply andb_true_iff in Hok. destruct Hok as [Hn Hk].
+  apply andb_true_iff in Hn. destruct Hn as [Hn Hkd]. simpl in Hkd.
   apply negb_true_iff in Hn.
   destruct (act_target a (d, next)) as [[[o r] c]|] eqn:Et; [|discriminate].
   unfold apply_action in Ha. rewrite Hn in Ha.
@@ -39,15 +42,15 @@ Proof.
   destruct (get_change pn (norm_ref pn (pc_ref (a_pc a)))) as [[c0|]|e] eqn:Eg; try discriminate.
   inversion Et; subst o0 r c0. clear Et.
   destruct st' as [d' next'].
-  destruct (update_exact lit fl (a_pc a) value (a_fmt a) vo d next d' next' o pn c Hwf Ep Ef Eg Hk Hu)
+  destruct (update_exact lit fl (a_pc a) value (a_fmt a) vo d next d' next' o pn c Hwf Ep Ef Eg Hk Hkd Hu)
     as [new [Hm [Hd Hx]]].
-  exists o, (norm_ref pn (pc_ref (a_pc a))), c, new. subst. repeat split; auto.
-  simpl. apply subst_wf_attr; auto.
-  destruct (make_new_node_shape _ _ _ _ _ _ _ _ Hm) as [nn [_ [i [E _]]]]. subst new. reflexivity.
+  destruct (make_new_node_shape _ _ _ _ _ _ _ _ Hm) as [nn [_ [i [E _]]]]. subst new.
+  exists o, (norm_ref pn (pc_ref (a_pc a))), c, i, (nn_val nn). subst. repeat split; auto.
+  simpl. apply ksubst_wf_attr. apply subst_wf_attr; auto.
 Qed.
 
 (* THE CHAIN: a list of changes, each under its guard, is the composition of the substitutions -
-   on plain data: one replacement at locations per change *)
+   on plain data: per change one replacement at locations and one re-filing of the alias keys *)
 Theorem actions_refine : forall value vo acts st st',
   wf_attr (fst st) = true -> acts_ok lit fl value vo acts st = true ->
   run_actions lit fl value vo acts st = SDone st' ->
@@ -57,10 +60,10 @@ Proof.
   - inversion H; subst. split; [constructor|assumption].
   - apply andb_true_iff in Hok. destruct Hok as [Hok1 Hok2].
     destruct (apply_action lit fl value vo a st) as [st1|e] eqn:Ea; [|discriminate].
-    destruct (apply_action_exact _ _ _ _ _ Hwf Hok1 Ea) as [o [rf [c [new [Et [Hm [Hs Hw]]]]]]].
+    destruct (apply_action_exact _ _ _ _ _ Hwf Hok1 Ea) as [o [rf [c [ri [rv [Et [Hm [Hs Hw]]]]]]]].
     rewrite Et, Hm. destruct (IH st1 st' Hw Hok2 H) as [Hp Hw'].
-    split; auto. econstructor; [|exact Hp].
-    subst st1. simpl. rewrite erase_subst. constructor.
+    split; auto. econstructor; [constructor|]. econstructor; [|exact Hp].
+    subst st1. simpl. rewrite erase_ksubst, erase_subst. constructor.
 Qed.
 
 Lemma set_value_unfold : forall cs value fmt vo st,
